@@ -6,10 +6,13 @@ from harness.common import sim
 from harness.common import usbref as U
 
 PROP = "C06"
-LEAN_MODULES = ["LunaVerif.Props.C06"]
+LEAN_MODULES = ["LunaVerif.Props.C06", "LunaVerif.Lemmas.C06Packet", "LunaVerif.Lemmas.C06Exact",
+                "LunaVerif.Lemmas.C06History"]
 DRIVER = "Driver/C06.lean"
 REQUIRED_THEOREMS = ["earlier_garbage_is_harmless", "setup_transaction_exact", "setup_fields_exact",
-                     "garbage_keeps_boundary", "setup_reported_iff_partial"]
+                     "garbage_keeps_boundary", "setup_reported_iff_partial",
+                     "setup_reported_iff", "ack_once_after_gap", "packet_exact", "history_exact", "tok_packet",
+                     "capture_general", "strobes_len10", "armed_after_setup_token"]
 RULE = ("cases = DUT variant (standalone=True, address 0 | decoder + real token detector/CRC/timer wired as a device "
         "does, random address) x speed (HS | FS) x transaction script; scripts are random mixes of: SETUP "
         "transactions (token to us / foreign address / any endpoint; DATA0/1 with 8 valid bytes, corrupted CRC, 0..7 "
@@ -27,17 +30,20 @@ ASSUMPTIONS = [
     "after a packet that starts with a data PID the line stays idle for >= (rx-to-tx delay + 3) cycles (the host "
     "waits for the handshake; the decoder may be in INTERPACKET_DELAY and the timer was just restarted)",
     "bytes are 8 bit; timer delay <= counter_max + 1",
+    "setup_reported_iff reads 'a SETUP token ... is followed by' as the packet-level `armedAfter`: the last non-SOF token "
+    "seen is a SETUP for this device and no data packet since made the deserializer strobe (CRC-valid with <= 8 payload "
+    "bytes, or a 0/1-byte runt whose comparison hits the stale registers: `dsStrobes`); directly after the SETUP token "
+    "this always holds (armed_after_setup_token)",
+    "ack_once_after_gap, exclusion of the 'timer already at delay in the strobe cycle' quirk: delay < 13 and delay <= "
+    "counter_max (HS 1, FS 10 in the real timer table)",
     "the decoder does not look at the endpoint number of the SETUP token (the control endpoint filters it): theorems "
     "and monitor count SETUP tokens to any endpoint of this device's address",
 ]
-PARTIAL = ("setup_reported_iff is proved in the forms: (if) every SETUP token to this device directly followed by a "
-           "CRC-valid 8-byte data packet is reported once with the decoded fields and ACKed once, after any legal "
-           "history (earlier_garbage_is_harmless); (only if, setup_reported_iff_partial) a `received` strobe is only "
-           "ever latched in READ_DATA on a deserializer strobe of length 8 while the detector's PID is SETUP, and the "
-           "garbage packets of `garbage_keeps_boundary` that carry no data PID never cause one.  A packet-level "
-           "characterisation of *every* history (including which short data packets make the deserializer strobe on "
-           "stale CRC registers) is covered by the monitor/co-simulation only.  ACK timing (exactly delay+1 cycles "
-           "after the strobe at FS, same cycle at HS) is checked by the monitor; the theorem states exactly-once.")
+PARTIAL = ("setup_reported_iff (every legal history, packet level, with the exact characterisation `dsStrobes` of when the "
+           "deserializer strobes, stale-register runts included) and ack_once_after_gap (cycle numbers) are theorems.  "
+           "Not covered by a theorem, only by the co-simulation ('hostile' cases): histories in which a packet that starts "
+           "with a data PID is followed by fewer than delay+3 idle cycles (FS: 13 cycles = 2.6 bit times; on a real bus "
+           "only after data packets nobody handshakes, e.g. isochronous traffic to other devices).")
 
 OUR_TOKENS = [U.PID_OUT, U.PID_IN, U.PID_SETUP, U.PID_PING]
 HS_DELAY, FS_DELAY, COUNTER_MAX = 1, 10, 640
